@@ -41,6 +41,13 @@ THEOREMS = [
     "HedVerif.C19.reach_inv",
     "HedVerif.C19.reach_inv2",
     "HedVerif.C19.current_counterexamples",
+    "HedVerif.C19.reach_inv3",
+    "HedVerif.C19.populate_complete",
+    "HedVerif.C19.refresh_complete",
+    "HedVerif.C19.refresh_no_torn",
+    "HedVerif.C19.peek_no_torn",
+    "HedVerif.C19.current_timestamp_counterexample",
+    "HedVerif.C19.current_direct_read_counterexample",
 ]
 BUDGET = {"quick": 600, "thorough": 2400}
 
@@ -82,12 +89,24 @@ class Env:
         self.sha = {n: hashlib.sha1(b).hexdigest() for n, b in self.bytes.items()}
         self.by_sha = {h: n for n, h in self.sha.items()}
         self.bundles = {}
+        self.lib_names = sorted(os.listdir(os.path.join(src, "library_data")))
+        for n in self.lib_names:
+            self.bytes[n] = open(os.path.join(src, "library_data", n), "rb").read()
+            self.sha[n] = hashlib.sha1(self.bytes[n]).hexdigest()
+        self.by_sha = {h: n for n, h in self.sha.items()}
         for key, names in (("small", SMALL), ("full", self.all_names)):
             d = os.path.join(root, "bundle_" + key)
             os.makedirs(os.path.join(d, "library_data"))
             for n in names:
                 os.symlink(os.path.join(src, n), os.path.join(d, n))
+            for n in self.lib_names:
+                os.symlink(os.path.join(src, "library_data", n), os.path.join(d, "library_data", n))
             self.bundles[key] = (d, list(names))
+        # the library_data sub-folder: same copy path (`_copy_installed_folder_to_cache(folder, "library_data")`),
+        # its own lock and timestamp; `root` = what INSTALLED_CACHE_LOCATION is set to
+        self.bundles["lib"] = (os.path.join(self.bundles["full"][0], "library_data"), list(self.lib_names))
+        self.installed = {"small": self.bundles["small"][0], "full": self.bundles["full"][0],
+                          "lib": self.bundles["full"][0]}
         # fake remote: one "library folder" per file, GitHub contents-API listing with the git blob sha
         self.remote = os.path.join(root, "remote")
         os.makedirs(os.path.join(self.remote, "files"))
@@ -140,7 +159,9 @@ def _child(pid, proc, spec, cache, chan):
     from hed.schema.schema_io import schema_util
     env = ENV
     bundle_dir, order = env.bundles[spec["bundle"]]
-    cache = os.path.realpath(cache)
+    cache_root = os.path.realpath(cache)
+    cache = os.path.join(cache_root, "library_data") if spec["bundle"] == "lib" else cache_root
+    libdata = proc["kind"] == "libdata"
     ts_file = os.path.join(cache, hed_cache_lock.TIMESTAMP_FILENAME)
     lock_file = os.path.join(cache, "cache_lock.lock")
     index = {n: k for k, n in enumerate(order)}
@@ -178,10 +199,16 @@ def _child(pid, proc, spec, cache, chan):
         p = in_cache(file) if isinstance(file, (str, bytes, os.PathLike)) else None
         if p is not None:
             if p == ts_file:
-                prim("readTs" if "r" in mode else "writeTs")
+                if "r" in mode:
+                    prim("readTs")
+                else:   # _write_last_cached_time: open(..., 'w') truncates, the number is written afterwards
+                    prim("truncTs")
+                    return _TsFile(real_open(file, mode, *a, **k))
             elif p == lock_file:
                 prim("openLock")
             elif "r" in mode and "+" not in mode:
+                if libdata:
+                    note("seg", "peek", os.path.basename(p))
                 prim("read", idx_of(p))
                 try:
                     with real_open(p, "rb") as f:
@@ -196,13 +223,33 @@ def _child(pid, proc, spec, cache, chan):
                 note("readhash", "bundled", hashlib.sha1(f.read()).hexdigest(), os.path.basename(str(file)))
         return real_open(file, mode, *a, **k)
 
+    class _TsFile:
+        def __init__(self, f):
+            self.f = f
+
+        def write(self, data):
+            prim("writeTs")
+            r = self.f.write(data)
+            self.f.flush()
+            return r
+
+        def __enter__(self):
+            return self
+
+        def __exit__(self, *a):
+            self.f.close()
+            return False
+
+        def __getattr__(self, n):
+            return getattr(self.f, n)
+
     def w_listdir(path="."):
         p = os.path.realpath(os.fspath(path))
         if p == cache:
             prim("list")
             return sorted(real_listdir(path))
         if p == bundle_dir:
-            return list(order) + ["library_data"]
+            return list(order) + ([] if spec["bundle"] == "lib" else ["library_data"])
         return real_listdir(path)
 
     def w_exists(path):
@@ -289,6 +336,8 @@ def _child(pid, proc, spec, cache, chan):
     o_enter, o_exit = CL.__enter__, CL.__exit__
 
     def enter(self):
+        if libdata:   # get_library_data: one lock round = one populate / one (empty) refresh of the model
+            note("seg", "refresh" if self.write_time else "populate", 0)
         try:
             r = o_enter(self)
         except BaseException as e:
@@ -310,13 +359,13 @@ def _child(pid, proc, spec, cache, chan):
     def sub(xml_version, *a, **k):
         """one version lookup + load = one `load v` process of the model"""
         v = str(xml_version)
-        note("sub-begin", ("HED_" + v if "_" in v else "HED" + v) + ".xml")
+        note("seg", "load", ("HED_" + v if "_" in v else "HED" + v) + ".xml")
         return o_sub(xml_version, *a, **k)
 
     hed_schema_io._load_schema_version_sub = sub
-    tempfile.tempdir = os.path.join(os.path.dirname(cache), "systmp")   # downloads of a killed refresh stay in the scratch
-    hed_cache.INSTALLED_CACHE_LOCATION = bundle_dir
-    hed_cache.HED_CACHE_DIRECTORY = cache
+    tempfile.tempdir = os.path.join(os.path.dirname(cache_root), "systmp")   # downloads of a killed refresh stay in the scratch
+    hed_cache.INSTALLED_CACHE_LOCATION = env.installed[spec["bundle"]]
+    hed_cache.HED_CACHE_DIRECTORY = cache_root
     hed_schema_io._load_schema_version.cache_clear()
     hed_cache.get_library_data.cache_clear()
 
@@ -334,7 +383,11 @@ def _child(pid, proc, spec, cache, chan):
             out["tags"] = [len(x.tags) for x in subs]
         elif kind == "refresh":
             urls = ["file://" + os.path.join(env.remote, f"lib{k}") for k in range(proc["arg"])]
-            out["ret"] = hed_cache.cache_xml_versions(hed_base_urls=urls, hed_library_urls=[], cache_folder=cache)
+            libs = ["file:///nonexistent-hedverif-remote"] if proc.get("badlib") else []
+            out["ret"] = hed_cache.cache_xml_versions(hed_base_urls=urls, hed_library_urls=libs, cache_folder=cache)
+        elif kind == "libdata":
+            out["data"] = hed_cache.get_library_data(proc.get("lib", "score"), cache_root)
+            out["class"] = "ok"
     except BaseException as e:  # noqa
         out["class"] = "error"
         out["exc"] = type(e).__name__
@@ -374,8 +427,9 @@ def simulate(spec):
     env = ENV
     bundle_dir, order_names = env.bundles[spec["bundle"]]
     scratch = tempfile.mkdtemp(prefix="hedverif_c19_")
-    cache = os.path.join(scratch, "cache")
-    os.makedirs(cache)
+    cache_root = os.path.join(scratch, "cache")
+    os.makedirs(cache_root)
+    cache = os.path.join(cache_root, "library_data") if spec["bundle"] == "lib" else cache_root
     os.makedirs(os.path.join(scratch, "systmp"))
     kids, log, trace, actions = [], [], [], []
     sizes = {n: len(env.bytes[n]) for n in order_names}
@@ -395,9 +449,10 @@ def simulate(spec):
                 os.waitpid(k.ospid, 0)
                 return
             if m[0] == "N":
-                if m[1] == "sub-begin":
+                if m[1] == "seg":
                     mp = k.pid if not segs[k.pid] else nreal + sum(max(0, len(v) - 1) for v in segs.values())
-                    segs[k.pid].append([mp, order_names.index(m[2]) if m[2] in order_names else -1, m[2]])
+                    arg = m[3] if isinstance(m[3], int) else (order_names.index(m[3]) if m[3] in order_names else -1)
+                    segs[k.pid].append([mp, m[2], arg, m[3]])
                     cur[k.pid] = mp
                 log.append([k.pid] + m[1:])
             elif m[0] == "P":
@@ -409,7 +464,7 @@ def simulate(spec):
                 return
 
     def scan():
-        for n in os.listdir(cache):
+        for n in (os.listdir(cache) if os.path.isdir(cache) else []):
             if n in sizes:
                 try:
                     if os.stat(os.path.join(cache, n)).st_size != sizes[n]:
@@ -467,7 +522,7 @@ def simulate(spec):
                     os.dup2(devnull, 1)
                     os.dup2(devnull, 2)
                     signal.signal(signal.SIGTERM, signal.SIG_DFL)
-                    _child(pid, proc, spec, cache, _Chan(p2c_r, c2p_w))
+                    _child(pid, proc, spec, cache_root, _Chan(p2c_r, c2p_w))
                 finally:
                     os._exit(71)
             os.close(c2p_w)
@@ -485,7 +540,7 @@ def simulate(spec):
                 pass
         # final observation
         files = {}
-        for name in sorted(os.listdir(cache)):
+        for name in sorted(os.listdir(cache) if os.path.isdir(cache) else []):
             p = os.path.join(cache, name)
             if os.path.isdir(p):
                 files[name] = ["dir"]
@@ -568,6 +623,8 @@ def judge(spec, obs, thr, env, refs=None):
             bad = [e for e in reads if e[3] != env.sha.get(e[4])]
             if oc.get("class") != "ok":
                 sig = "C19-torn-copy-served" if bad else "C19-missing-version-not-loaded"
+                if oc.get("exc") == "ValueError":
+                    sig = "C19-torn-timestamp-valueerror"
                 out.append(("load-failed", sig, f"process {pid} load_schema_version({proc.get('ver')!r}): {oc.get('exc')} "
                                                 f"{oc.get('code')} {oc.get('msg', '')[:80]}"))
             elif not reads or bad:
@@ -579,6 +636,18 @@ def judge(spec, obs, thr, env, refs=None):
                     out.append(("load-different-schema", "C19-load-differs-from-bundled",
                                 f"process {pid} load_schema_version({proc.get('ver')!r}) gave {[oc.get('version'), oc.get('tags')]}, "
                                 f"the bundled files give {ref}"))
+        elif proc["kind"] == "libdata" and po["state"] == "done" and oc.get("class") == "ok":
+            want = json.loads(env.bytes["library_data.json"]).get(proc.get("lib", "score"))
+            bad = [e for e in reads if e[3] is not None and e[3] != env.sha.get(e[4])]
+            gave_up = any(e[0] == pid and e[1] == "enter-raised" and e[2] == "CacheException" for e in log)
+            if bad:
+                out.append(("library-data-torn-read", "C19-torn-copy-served",
+                            f"process {pid} get_library_data read a partial {bad[0][4]}"))
+            elif oc.get("data") != want and not (oc.get("data") == {} and gave_up):
+                out.append(("library-data-different", "C19-torn-copy-served",
+                            f"process {pid} get_library_data gave {str(oc.get('data'))[:80]}, bundled {str(want)[:80]}"))
+        elif po["state"] == "done" and oc.get("class") == "error" and proc.get("badlib") and oc.get("exc") == "URLError":
+            pass   # observation only (see run()): the network error of an unreachable remote escapes cache_xml_versions
         elif po["state"] == "done" and oc.get("class") == "error":
             out.append(("process-raised", "C19-cache-call-raised", f"process {pid} ({proc['kind']}): {oc.get('exc')} {oc.get('msg', '')[:80]}"))
         elif po["state"] == "died":
@@ -589,7 +658,8 @@ def judge(spec, obs, thr, env, refs=None):
         out.append(("lock-holders-overlap", "C19-lock-not-acquired", f"processes {ov[0][0]} and {ov[0][1]} both inside `with CacheLock` (log position {ov[0][2]})"))
     for e in log:
         if e[1] == "enter-raised" and e[2] != "CacheException":
-            out.append(("lock-failure-not-cache-error", "C19-lock-timeout-wrong-error", f"process {e[0]}: CacheLock.__enter__ raised {e[2]}"))
+            sig = "C19-torn-timestamp-valueerror" if e[2] == "ValueError" else "C19-lock-timeout-wrong-error"
+            out.append(("lock-failure-not-cache-error", sig, f"process {e[0]}: CacheLock.__enter__ raised {e[2]}"))
     # 4. refresh within the interval is skipped
     for pid, proc in enumerate(spec["procs"]):
         for t in obs["ts_at_read"].get(str(pid), [])[:1]:
@@ -626,15 +696,17 @@ def judge(spec, obs, thr, env, refs=None):
 
 def model_procs(spec, obs):
     """Model processes of a run: one per real process, except that a loader is one `load v` per
-    `_load_schema_version_sub` call it made (a version list, or a library schema that pulls in its standard
-    partner, looks up and reads several files one after the other).  [{kind,arg,now,real,seg}]"""
+    `_load_schema_version_sub` call it made (a version list looks up and reads several files one after the
+    other) and a `get_library_data` call is a `peek` per direct read, a `populate` per lock round without
+    timestamp and a `refresh 0` per lock round with it.  [{kind,arg,now,real,seg}]"""
     n = len(spec["procs"])
-    out = [{"kind": p["kind"], "arg": p.get("arg", 0) if p["kind"] != "load" else 0, "now": p["now"], "real": i, "seg": 0}
+    out = [{"kind": p["kind"] if p["kind"] not in ("load", "libdata") else "peek",
+            "arg": p.get("arg", 0) if p["kind"] not in ("load", "libdata") else 0, "now": p["now"], "real": i, "seg": 0}
            for i, p in enumerate(spec["procs"])]
     extra = {}
     for rp, sg in obs["segs"].items():
-        for k, (mp, v, _name) in enumerate(sg):
-            rec = {"kind": "load", "arg": max(v, 0), "now": spec["procs"][int(rp)]["now"], "real": int(rp), "seg": k}
+        for k, (mp, kind, arg, _name) in enumerate(sg):
+            rec = {"kind": kind, "arg": max(arg, 0), "now": spec["procs"][int(rp)]["now"], "real": int(rp), "seg": k}
             if mp < n:
                 out[mp] = rec
             else:
@@ -657,7 +729,7 @@ def impl_view(spec, obs, env):
     parts = {}
     for e in obs["log"]:
         lst = parts.setdefault(e[0], [[]])
-        if e[1] == "sub-begin":
+        if e[1] == "seg":
             lst.append([])
         lst[-1].append(e)
     procs = []
@@ -665,26 +737,31 @@ def impl_view(spec, obs, env):
         po = obs["procs"][mp["real"]]
         oc = po["outcome"] or {}
         allp = parts.get(mp["real"], [[]])
-        if mp["kind"] == "load":
+        segmented = spec["procs"][mp["real"]]["kind"] in ("load", "libdata")
+        if segmented:
             begun = allp[1:]
             mine = begun[mp["seg"]] if mp["seg"] < len(begun) else []
-            last = mp["seg"] == len(begun) - 1
+            last = mp["seg"] >= len(begun) - 1
         else:
             mine = [e for x in allp for e in x]
             last = True
         err = None
         if any(e[1] == "enter-raised" and e[2] == "CacheException" for e in mine):
             err = "lockTimeout" if any(e[1] == "lock-failed" for e in mine) else "tooRecent"
-        st = {"done": "finished", "crashed": "crashed"}.get(po["state"], po["state"])
+        st = {"done": "finished", "crashed": "crashed"}.get(po["state"], po["state"]) if last else "finished"
         got = None
-        if mp["kind"] == "load" and po["state"] == "done":
-            reads = [e for e in mine if e[1] == "readhash"]
+        reads = [e for e in mine if e[1] == "readhash"]
+        if mp["kind"] == "load" and st == "finished":
             ok = bool(reads) and all(e[3] == env.sha.get(e[4]) for e in reads) and (oc.get("class") == "ok" or not last)
             got = "bundled" if ok else "bad"
+        elif mp["kind"] == "peek" and st == "finished":
+            got = "absent" if (not reads or reads[0][3] is None) else \
+                ("bundled" if all(e[3] == env.sha.get(e[4]) for e in reads) else "bad")
         procs.append({"status": st, "err": err, "got": got})
+    tsv = None if ts is None or ts[1] == "" else ts[1]
     return {"trace": [[t[0], t[1], t[2], t[3]] for t in obs["mtrace"]],
             "finals": finals, "tmps": tmps, "lockFile": "cache_lock.lock" in obs["files"],
-            "ts": None if ts is None else ts[1], "overlap": bool(regions(obs["log"])),
+            "ts": tsv, "tsTorn": ts is not None and ts[1] == "", "overlap": bool(regions(obs["log"])),
             "torn_seen": bool(obs["torn_seen"]), "procs": procs}
 
 
@@ -695,11 +772,15 @@ def model_view(spec, obs, ans, cfg):
         got = None
         if proc["kind"] == "load" and mp["status"] == "finished":
             got = "bundled" if isinstance(mp["got"], list) and mp["got"] == [proc["arg"], full] else "bad"
+        elif proc["kind"] == "peek" and mp["status"] == "finished":
+            got = "absent" if mp["got"] == "notFound" else \
+                ("bundled" if isinstance(mp["got"], list) and mp["got"] == [proc["arg"], full] else "bad")
         procs.append({"status": mp["status"], "err": mp["err"], "got": got})
     return {"trace": [t for t in ans["trace"] if t[1] != "crash"],
             "finals": sorted([f[0], bool(f[2])] for f in ans["finals"]),
             "tmps": sorted(_tmp_view(t[1], t[2][1]) for t in ans["tmps"]),
-            "lockFile": ans["lockFile"], "ts": ans["ts"], "overlap": ans["overlap"], "torn_seen": False,
+            "lockFile": ans["lockFile"], "ts": ans["ts"], "tsTorn": ans["tsTorn"], "overlap": ans["overlap"],
+            "torn_seen": False,
             "procs": procs}
 
 
@@ -716,11 +797,11 @@ def views_differ(iv, mv):
     if len(it) != len(mt):
         diffs.append(f"trace length {len(it)} vs model {len(mt)}")
     for a, b in zip(it, mt):
-        if a[0] != b[0] or a[1] != b[1] or (a[2] >= 0 and a[1] not in ("list", "readTs", "writeTs", "openLock", "tryLock", "unlock") and a[2] != b[2]) \
+        if a[0] != b[0] or a[1] != b[1] or (a[2] >= 0 and a[1] not in ("list", "readTs", "truncTs", "writeTs", "openLock", "tryLock", "unlock") and a[2] != b[2]) \
                 or (a[1] == "append" and a[3] != b[3]):
             diffs.append(f"primitive {a} vs model {b}")
             break
-    for key in ("finals", "tmps", "lockFile", "overlap", "torn_seen", "procs"):
+    for key in ("finals", "tmps", "lockFile", "tsTorn", "overlap", "torn_seen", "procs"):
         if iv[key] != mv[key]:
             diffs.append(f"{key}: {iv[key]} vs model {mv[key]}")
     its = None
@@ -742,6 +823,11 @@ def P(kind, arg=0, now=T0):
 def L(ver, now=T0):
     """loader of a version string ('8.3.0', 'score_2.0.0') or a list (['8.3.0', 'sc:score_2.0.0'])"""
     return {"kind": "load", "ver": ver, "arg": 0, "now": now}
+
+
+def LD(lib="score", now=T0):
+    """hed_cache.get_library_data(lib, cache) - the library_data sub-folder of the cache"""
+    return {"kind": "libdata", "arg": 0, "now": now, "lib": lib}
 
 
 def ver_of(name):
@@ -772,6 +858,17 @@ def canonical_specs(vers):
                           P("refresh", 2, T0 + 1800), P("populate", 0, T0 + 1900), P("populate", 0, T0 + 3601), L(v1)],
                 order=[0, 1, 2, 3, 4, 5, 6], tag="refresh-interval"),
         spec_of("small", [P("refresh", 1, T0), P("refresh", 1, T0 + 5)], script=[0, 1], order=[0, 1], tag="refresh-race"),
+        # the timestamp file is truncated, then written: a first-use loader that listed the empty folder reads
+        # it in between (refresh killed there / merely preempted there); later refreshes after a torn timestamp
+        spec_of("small", [L(v0), P("refresh", 1, T0)], script=[0] + [1] * 9, order=[0, 1], crash={1: 9}, tag="torn-timestamp"),
+        spec_of("small", [L(v2), P("refresh", 1, T0)], script=[0] + [1] * 9 + [0], order=[0, 1], tag="torn-timestamp"),
+        spec_of("small", [P("refresh", 1, T0), P("refresh", 1, T0 + 10), P("populate", 0, T0 + 20), L(v0),
+                          P("refresh", 2, T0 + 30)], order=[0, 1, 2, 3, 4], crash={0: 9}, tag="torn-timestamp"),
+        spec_of("small", [P("refresh", 0, T0), P("refresh", 1, T0 + 1)], script=[0, 0, 0, 0], order=[1, 0], crash={0: 4},
+                tag="torn-timestamp"),
+        # an unreachable remote (observation: the URLError escapes cache_xml_versions instead of the documented -1)
+        spec_of("small", [{"kind": "refresh", "arg": 0, "now": T0, "badlib": True}, P("refresh", 1, T0 + 5), L(v0)],
+                order=[0, 1, 2], tag="remote-unreachable"),
     ]
 
 
@@ -813,6 +910,11 @@ def evaluate(ctx, specs, cfg_for, thr, pool, judge_loads=True):
                     if e[1] == "readhash" and e[0] == spec["procs"].index(proc):
                         ctx.count("load-read-from:" + e[2])
         case = {k: spec[k] for k in ("bundle", "procs", "script", "order", "crash")}
+        for po, proc in zip(obs["procs"], spec["procs"]):
+            if proc.get("badlib") and po["state"] == "done":
+                oc = po["outcome"] or {}
+                ctx.count("observation:unreachable-remote:" + ("raised " + str(oc.get("exc")) if oc.get("class") == "error"
+                                                                else "returned " + str(oc.get("ret"))))
         for clause, sig, detail in judge(spec, obs, thr, env, REFS):
             if not judge_loads and clause == "load-failed" and sig == "C19-missing-version-not-loaded" and not any(
                     a[1] == 1 for a in obs["actions"]):
@@ -955,13 +1057,32 @@ def run(ctx):
         evaluate(ctx, two[:n_two], cfg_for, thr, pool)
         ctx.extra["interleave_two_switch_space"] = len(two)
 
-        # 3. random deeper schedules with crashes; refresh mixed in
+        # 2b. get_library_data: the library_data sub-folder (own lock and timestamp, same copy path).  Every crash
+        #     point of one caller followed by two more; all one-preemption schedules of two callers; random of three
+        o = evaluate(ctx, [spec_of("lib", [LD(), LD("lang")], order=[0, 1], tag="libdata-0")], cfg_for, thr, None)[0]
+        nl = o["procs"][0]["nprims"]
+        ctx.extra["get_library_data_primitives"] = nl
+        lib = [spec_of("lib", [LD(), LD("lang"), LD("")], order=[0, 1, 2], crash={0: k}, tag="libdata-crash") for k in range(nl)]
+        for n1 in range(1, nl):
+            lib.append(spec_of("lib", [LD(), LD("lang")], script=[0] * n1, order=[1, 0], tag="libdata-interleave-1"))
+        for _ in range(60 if quick else 1500):
+            script = [ctx.rng.randrange(3) for _ in range(ctx.rng.randint(3, 40))]
+            crash = {p_: ctx.rng.randint(0, nl + 6) for p_ in range(3) if ctx.rng.random() < 0.3}
+            order = [0, 1, 2]
+            ctx.rng.shuffle(order)
+            lib.append(spec_of("lib", [LD(), LD("lang"), LD("score")], script=script, order=order, crash=crash,
+                               tag="libdata-random"))
+        evaluate(ctx, lib, cfg_for, thr, pool)
+
+        # 3. random deeper schedules with crashes; refresh mixed in; up to three populates and two loaders
         rnd = []
         n_rnd = 400 if quick else 6000
         for _ in range(n_rnd):
             rv = lambda: ctx.rng.choice(small_vers)
             kinds = ctx.rng.choice([
                 [P("populate"), P("populate"), L(rv())],
+                [P("populate"), P("populate"), P("populate"), L(rv()), L(rv())],
+                [P("populate"), P("populate"), P("populate"), L(rv()), L(rv())],
                 [P("populate"), L(rv()), L(rv())],
                 [P("populate"), P("refresh", 2, T0), L(rv())],
                 [P("refresh", 2, T0), P("refresh", 1, T0 + ctx.rng.choice([0, 10, 1799, 1800, 5000])), L(rv())],
